@@ -96,6 +96,38 @@ fn run_case(seed: u64, idx: u64, _tier: Tier, out: &mut CaseOut) {
         }
         out.inc("histories_with_css");
     }
+    // document styles that change text or colour.  Whether they apply depends only on
+    // use_doc_css, on every route alike; several <style> elements whose rules tie in
+    // the cascade must be resolved the same way on every call (source order).
+    if rng.chance(1, 5) {
+        if rng.chance(2, 3) {
+            cfg.use_doc_css = true;
+        }
+        let sel = *rng.pick(&["p", "em", "li", "td", "div", "span", "strong", "a", "blockquote"]);
+        let n = rng.range(1, 3);
+        let mut v: Vec<u8> = Vec::new();
+        for k in 0..n {
+            let decl = match rng.below(4) {
+                0 => "display: none".to_string(),
+                1 => format!("white-space: {}", rng.pick(&["pre", "normal", "pre-wrap"])),
+                2 => format!("color: #0{}0{}0{}", k + 1, k + 2, k + 3),
+                _ => format!("display: {}; color: #a{}b{}c{}", rng.pick(&["none", "block", "inline"]), k, k, k),
+            };
+            v.extend_from_slice(format!("<style>{} {{ {} }}</style>", sel, decl).as_bytes());
+        }
+        v.extend_from_slice(&input);
+        input = v;
+        if rng.chance(1, 2) {
+            // an inline declaration on the first element of some kind
+            let tag = *rng.pick(&["<p>", "<em>", "<li>", "<td>", "<div>", "<span>"]);
+            if let Some(pos) = input.windows(tag.len()).position(|w| w == tag.as_bytes()) {
+                let decl = *rng.pick(&["display:none", "white-space:pre", "color:#123456", "display:none;color:red"]);
+                let rep = format!("{} style=\"{}\">", &tag[..tag.len() - 1], decl);
+                input.splice(pos..pos + tag.len(), rep.into_bytes());
+            }
+        }
+        out.inc("histories_with_doc_styles");
+    }
     // width history
     let n = rng.range(2, 6);
     let mut widths: Vec<usize> = Vec::new();
@@ -137,6 +169,11 @@ fn run_case(seed: u64, idx: u64, _tier: Tier, out: &mut CaseOut) {
             return;
         }
     };
+    // cross-configuration route: the tree is built by a configuration that differs
+    // only in its decorator and rendered by `cfg`
+    let other = cross_build_cfg(&cfg, rng.next());
+    let cross = render_cross(&other, &cfg, &input, &widths);
+    out.evals += widths.len() as u64;
     let mut saw_err = false;
     let mut ok_after_err = false;
     for (i, &w) in widths.iter().enumerate() {
@@ -153,6 +190,9 @@ fn run_case(seed: u64, idx: u64, _tier: Tier, out: &mut CaseOut) {
             ("render_to_string(tree.clone())", ss.clone()),
             ("join(render_to_lines(tree.clone()))", slj),
         ];
+        if let Outcome::Ok(cv) = &cross {
+            routes.push(("render_to_string(tree built under another decorator)", cv[i].clone()));
+        }
         if cfg.deco == Deco::Rich {
             routes.push(("coloured(identity)", render_coloured(&cfg, &input, w)));
             out.evals += 1;
